@@ -485,7 +485,7 @@ _PARK = {"on": False, "ident": None, "inside": None, "resume": None, "holds": No
 def _audit_park(event, args):
     """Parks thread A at its first rename / replace into the collection data (not the cache): it has read the old
     state and is about to publish the new one, holding the exclusive lock."""
-    if not _PARK["on"] or event != "os.rename" or threading.get_ident() != _PARK["ident"]:
+    if not _PARK["on"] or event != "os.rename" or _PARK["ident"] not in ("any", threading.get_ident()):
         return
     dst = args[1] if len(args) > 1 else None
     if not isinstance(dst, str) or ".Radicale.cache" in dst or "collection-cache" in dst:
@@ -713,3 +713,232 @@ def run_concurrent_readers(n_items, plan, storage_type="multifilesystem", rounds
             if yielding:
                 app_base.io = real_io if not isinstance(real_io, _IoProxy) else real_io._real
     return bad
+
+
+# ------------------------------------------------------------------------------- two readers, one cold / stale item-cache entry
+class _PickleProxy:
+    """Stands in for the `pickle` name of radicale/storage/multifilesystem/cache.py: reader 1 pauses between opening
+    the cache entry for writing and dumping into it, until reader 2 has had its (lock-free) look at the entry."""
+
+    def __init__(self, real, dumping, looked):
+        self._real = real
+        self._dumping = dumping
+        self._looked = looked
+
+    def __getattr__(self, name):
+        return getattr(self._real, name)
+
+    def dump(self, obj, f, *a, **k):
+        if getattr(_tls, "role", None) == 1 and not self._dumping.is_set():
+            self._dumping.set()
+            self._looked.wait(0.3)
+        return self._real.dump(obj, f, *a, **k)
+
+    def load(self, f, *a, **k):
+        try:
+            return self._real.load(f, *a, **k)
+        finally:
+            if getattr(_tls, "role", None) == 2:
+                self._looked.set()
+
+
+def run_cold_item_readers(storage_type, variant, req_kind, rounds=2):
+    """An event is stored; its item-cache entry is made COLD (the cache folder of the collection is removed: cache
+    clean-up, new cache version) or STALE (the item file is edited from outside).  Reader 1 and reader 2 read the item
+    at the same time (both under the shared lock); reader 2 looks at the cache entry exactly while reader 1 is writing
+    it.  Every answer must be the answer of the same request alone.  -> list of differing answers"""
+    import radicale.storage.multifilesystem.cache as cache_mod
+    conf = {"auth": {"type": "none"}, "rights": {"type": "owner_only"}, "storage": {"type": storage_type}}
+    real_pickle = cache_mod.pickle._real if isinstance(cache_mod.pickle, _PickleProxy) else cache_mod.pickle
+    bad = []
+    reqs = {"get": ("GET", "/u/cal/e0.ics", None, None), "query": ("REPORT", "/u/cal/", QUERY_BODY, None),
+            "multiget": ("REPORT", "/u/cal/", ('<?xml version="1.0"?><C:calendar-multiget xmlns:D="DAV:" xmlns:C="urn:ietf:params:xml:ns:caldav">'
+                                               '<D:prop><D:getetag/><C:calendar-data/></D:prop><D:href>/u/cal/e0.ics</D:href></C:calendar-multiget>'), None)}
+    m, p, b, d = reqs[req_kind]
+    with impl.Server(conf=conf) as srv:
+        try:
+            assert srv.mkcalendar("/u/cal/", login="u:") == 201
+            assert srv.put("/u/cal/e0.ics", impl.event("e0", "round -1"), login="u:")[0] == 201
+            coll = os.path.join(srv.folder, "collection-root", "u", "cal")
+            for rnd in range(rounds):
+                if variant == "cold":
+                    shutil.rmtree(os.path.join(coll, ".Radicale.cache", "item"), ignore_errors=True)
+                else:
+                    with open(os.path.join(coll, "e0.ics"), "w", newline="") as f:
+                        f.write(impl.event("e0", "edited outside %d" % rnd))
+                dumping, looked = threading.Event(), threading.Event()
+                cache_mod.pickle = _PickleProxy(real_pickle, dumping, looked)
+                got = [None, None]
+
+                def body(k):
+                    _tls.role = k + 1
+                    try:
+                        if k == 1:
+                            dumping.wait(0.5)
+                        got[k] = raw_request(srv, m, p, b, "u:", d)
+                    except BaseException as e:  # noqa
+                        got[k] = (599, repr(e).encode())
+                    finally:
+                        _tls.role = None
+                        if k == 1:
+                            looked.set()
+                ths = [threading.Thread(target=body, args=(k,), daemon=True) for k in range(2)]
+                for t in ths:
+                    t.start()
+                for t in ths:
+                    t.join(30)
+                cache_mod.pickle = real_pickle
+                alone = raw_request(srv, m, p, b, "u:", d)
+                for k in range(2):
+                    if got[k] != alone:
+                        bad.append(dict(round=rnd, reader=k + 1, request=[m, p], variant=variant, storage_type=storage_type,
+                                        reader1_was_writing_the_entry=dumping.is_set(), concurrent_status=got[k][0] if got[k] else None,
+                                        alone_status=alone[0], concurrent_body=(got[k][1] if got[k] else b"").decode("utf-8", "replace")[:800],
+                                        alone_body=alone[1].decode("utf-8", "replace")[:800]))
+        finally:
+            cache_mod.pickle = real_pickle
+    return bad
+
+
+# ------------------------------------------------------------------------------- the real serve() with several listening sockets
+class _HttpSrv:
+    """Looks like impl.Server to x_handlers.Runner, but sends the request over HTTP to one listening socket."""
+
+    def __init__(self, port):
+        self.port = port
+
+    def request(self, method, path, data=None, login=None, environ=None, **headers):
+        import base64
+        import http.client
+        from urllib.parse import quote
+        hdrs = {}
+        for k, v in headers.items():
+            k = k.upper()
+            name = k[5:] if k.startswith("HTTP_") else k
+            hdrs["-".join(w.capitalize() for w in name.split("_"))] = v
+        if login:
+            hdrs["Authorization"] = "Basic " + base64.b64encode(login.encode("utf-8")).decode()
+        body = None if data is None else (data if isinstance(data, bytes) else data.encode("utf-8"))
+        c = http.client.HTTPConnection("127.0.0.1", self.port, timeout=30)
+        try:
+            c.request(method, quote(path), body=body, headers=hdrs)
+            r = c.getresponse()
+            return r.status, dict(r.getheaders()), r.read()
+        finally:
+            c.close()
+
+
+def _free_ports(n):
+    import socket
+    socks = [socket.socket() for _ in range(n)]
+    try:
+        for s in socks:
+            s.bind(("127.0.0.1", 0))
+        return [s.getsockname()[1] for s in socks]
+    finally:
+        for s in socks:
+            s.close()
+
+
+def run_served_pair(world, pre, setup, req_a, req_b, etags, storage_type="multifilesystem_nolock", wait=0.3):
+    """The REAL radicale.server.serve() with two listening sockets (hosts = 127.0.0.1:p1, 127.0.0.1:p2) in a thread of
+    this process.  Request A goes to socket 1 and is parked at its first rename into the collection data (it has read
+    the old state and holds the exclusive lock); request B goes to socket 2; then A continues.
+    -> dict(setup, resps=[cA, cB], store, b_done_while_a_parked, errors)"""
+    import socket
+    from radicale import server as rserver
+    set_policy(world)
+    if not _PARK.get("installed"):
+        sys.addaudithook(_audit_park)
+        _PARK["installed"] = True
+    p1, p2 = _free_ports(2)
+    conf = server_conf(world, pre, storage_type)
+    conf["server"] = {"hosts": "127.0.0.1:%d,127.0.0.1:%d" % (p1, p2)}
+    holder = impl.Server(conf=conf)
+    sd_out, sd_in = socket.socketpair()
+    errors = []
+
+    def serve():
+        try:
+            rserver.serve(holder.configuration, sd_out)
+        except BaseException as e:  # noqa
+            errors.append("serve: %r" % (e,))
+    th = threading.Thread(target=serve, daemon=True)
+    th.start()
+    try:
+        for _ in range(100):              # wait until both sockets accept
+            try:
+                for p in (p1, p2):
+                    socket.create_connection(("127.0.0.1", p), timeout=1).close()
+                break
+            except OSError:
+                time.sleep(0.05)
+        s1, s2 = _HttpSrv(p1), _HttpSrv(p2)
+        runner = xh.Runner(etags)
+        outs = [runner.one(s1, ui, r) for ui, r in setup]
+        inside, resume, holds = threading.Event(), threading.Event(), threading.Event()
+        res = [None, None]
+
+        def client(k, srv, q):
+            try:
+                res[k] = xh.Runner(etags).one(srv, q[0], q[1])
+            except BaseException as e:  # noqa
+                errors.append("client %d: %r" % (k, e))
+        _PARK.update(ident="any", inside=inside, resume=resume, holds=holds, on=True)
+        ta = threading.Thread(target=client, args=(0, s1, req_a), daemon=True)
+        ta.start()
+        parked = inside.wait(3)
+        tb = threading.Thread(target=client, args=(1, s2, req_b), daemon=True)
+        tb.start()
+        tb.join(wait if parked else 0)
+        b_done = parked and not tb.is_alive()
+        resume.set()
+        ta.join(30)
+        tb.join(30)
+        _PARK["on"] = False
+        store = xh.dump_store(holder.folder, etags)
+        return dict(setup=outs, resps=res, store=store, parked=parked, b_done_while_a_parked=b_done, errors=errors, ports=[p1, p2])
+    finally:
+        _PARK["on"] = False
+        resume_ = _PARK.get("resume")
+        if resume_:
+            resume_.set()
+        sd_in.close()
+        th.join(10)
+        sd_out.close()
+        holder.close()
+
+
+# ------------------------------------------------------------------------------- the storage hook is part of the write
+def run_hook_pair(storage_type="multifilesystem", delay=0.25):
+    """[storage] hook configured (as with the documented `git add -A && git commit`): the hook takes a snapshot of the
+    calendar folder, slowly.  Client 1 PUTs e1; while its hook is still running client 2 PUTs e2.  In a one-at-a-time
+    execution the first hook run sees exactly one event and the second both.  -> dict(snapshots=[sorted names], statuses)"""
+    tag = "rv-hooklog-%d-%d" % (os.getpid(), random.randrange(10**9))
+    tmpd = tempfile.gettempdir()
+    hook = ("sleep %s; ls %%(cwd)s/collection-root/u/cal > $(mktemp %s/%s.XXXXXX)" % (delay, tmpd, tag))
+    conf = {"auth": {"type": "none"}, "rights": {"type": "owner_only"}, "storage": {"type": storage_type, "hook": hook}}
+    try:
+        with impl.Server(conf=conf) as srv:
+            assert srv.mkcalendar("/u/cal/", login="u:") == 201
+            for f in glob.glob(os.path.join(tmpd, tag + ".*")):
+                os.remove(f)                      # snapshots of the set-up
+            st = [None, None]
+
+            def put(k):
+                st[k] = srv.put("/u/cal/e%d.ics" % (k + 1), impl.event("e%d" % (k + 1)), login="u:")[0]
+            t1 = threading.Thread(target=put, args=(0,), daemon=True)
+            t1.start()
+            time.sleep(delay / 3.0)               # client 1 is inside its write (body done or not: the hook has not finished)
+            t2 = threading.Thread(target=put, args=(1,), daemon=True)
+            t2.start()
+            t1.join(30)
+            t2.join(30)
+            snaps = []
+            for f in sorted(glob.glob(os.path.join(tmpd, tag + ".*"))):
+                snaps.append(sorted(l.strip() for l in open(f) if l.strip().endswith(".ics")))
+            return dict(snapshots=sorted(snaps, key=len), statuses=st)
+    finally:
+        for f in glob.glob(os.path.join(tmpd, tag + ".*")):
+            with contextlib.suppress(OSError):
+                os.remove(f)
